@@ -721,6 +721,26 @@ def mutants(export):
         out.append(("duplicate-top-level", e, [], {"duplicate-top-level"}))
         out.append(("declared-name-is-keyword", copy.deepcopy(export), [export["decls"][-1]["name"]],
                     {"reserved-identifier"}))
+    # use before declaration: the first statement of a block now refers to a variable the block declares later
+    e = copy.deepcopy(export)
+    n = first_node(e, "block", lambda n: any(x.get("n") == "var" for x in n["body"][1:]))
+    if n is not None:
+        later = next(x for x in n["body"][1:] if x.get("n") == "var")
+        n["body"].insert(0, {"n": "variable", "name": later["name"]})
+        out.append(("use-before-declaration", e, [], {"unresolved-variable"}))
+    # a type variable nobody binds, as the declared type of a variable
+    e = copy.deepcopy(export)
+    n = first_node(e, "var", lambda n: n["varType"] is not None)
+    if n is not None:
+        e["tt"] = e["tt"] + [{"k": "v", "name": "ZZUNBOUND", "var": 0, "bound": None}]
+        n["varType"] = len(e["tt"]) - 1
+        out.append(("type-variable-out-of-scope", e, [], {"type-variable-out-of-scope"}))
+    # one constructor argument too few
+    e = copy.deepcopy(export)
+    n = first_node(e, "new", lambda n: new_of_declared(n) and n["args"])
+    if n is not None:
+        n["args"] = n["args"][1:]
+        out.append(("new-with-missing-argument", e, [], {"arity:new"}))
     e = copy.deepcopy(export)
     n = first_node(e, "call", lambda n: not n["isRefCall"])
     if n is not None:
@@ -810,6 +830,13 @@ def check(run):
     # the effectively-final rule only shows in Java programs with lambdas / nested functions: more of those (small)
     specs += make_specs(run.rng, ["java"], [(0, 0, 0, 0), (0, 0, 1, 1)], 18 if quick else 300, [4, 4, 5], cap)
     run.rng.shuffle(specs)
+    # the budget cuts the stream off on a loaded machine: hand the Java programs out first, two for one other
+    java = [x for x in specs if x["lang"] == "java"]
+    other = [x for x in specs if x["lang"] != "java"]
+    specs = []
+    while java or other:
+        specs += java[:2] + other[:1]
+        java, other = java[2:], other[1:]
     exports = programs_stream(run, specs, tables, budget)
     # 4. the checker rejects what it must
     mutant_stream(run, exports, tables, 12 if quick else 40)
